@@ -39,6 +39,12 @@ func (engine) Shrink(ci any, stillFails func(any) bool) any {
 				changed = true
 			}
 		}
+		if cur.Share && budget > 0 {
+			budget--
+			if try(func(c *Case) bool { c.Share = false; return true }) {
+				changed = true
+			}
+		}
 		for ci := range cur.Calls {
 			for j := len(cur.Calls[ci].Pass) - 1; j >= 0 && budget > 0; j-- {
 				if len(cur.Calls[ci].Pass) <= 1 {
@@ -81,8 +87,35 @@ func (engine) Shrink(ci any, stillFails func(any) bool) any {
 					}
 				}
 			}
+			// a looping graph: fewer iterations, then no loop at all (the Back relay goes)
+			for cur.Forest[gi].Loop > 0 && budget > 0 {
+				budget--
+				if !try(func(c *Case) bool {
+					g := &c.Forest[gi]
+					g.Loop--
+					if g.Loop == 0 {
+						var keep []Node
+						for _, nd := range g.Nodes {
+							if !nd.Back {
+								keep = append(keep, nd)
+							}
+						}
+						g.Nodes = keep
+					}
+					return true
+				}) {
+					break
+				}
+				changed = true
+			}
 			for ni := len(cur.Forest[gi].Nodes) - 1; ni >= 0 && budget > 0; ni-- {
 				nd := cur.Forest[gi].Nodes[ni]
+				if nd.Nat != 0 {
+					budget--
+					if try(func(c *Case) bool { c.Forest[gi].Nodes[ni].Nat = 0; return true }) {
+						changed = true
+					}
+				}
 				if nd.Rerun {
 					budget--
 					if try(func(c *Case) bool { c.Forest[gi].Nodes[ni].Rerun = false; return true }) {
